@@ -41,6 +41,8 @@ GARBLED = {"ok-between-formfeeds": b"junk\x0cOK\x0cjunk\n", "ok-between-vtabs": 
 GARBLED_MODES = ["hex%d_%s" % (rc, v.hex()) for k, v in sorted(GARBLED.items()) for rc in (0, 1)]
 GARBLED_NAME = {"hex%d_%s" % (rc, v.hex()): "%s(exit %d)" % (k, rc) for k, v in GARBLED.items() for rc in (0, 1)}
 NORESULT_MODES = ["exit1_silent", "exit0_silent", "no_output", "empty_output", "segv_before", "kill_before"]
+# an error exit after the unprocessed input (signature template / plaintext) was written to the output file: no result either
+UNPROCESSED_MODES = ["exit1_unprocessed_output"]
 DAMAGE_MODES = ["trunc_output", "garble_output", "segv_after", "kill_after"]
 UNSTARTABLE = ["tool-missing", "tool-not-executable", "tool-is-directory"]
 POSITIONS = ["1", "2", "all"]
@@ -81,17 +83,22 @@ def gen_cases(tier, seed):
                           "pos": "all", "mode": u, "kind": "verify"})
     for site in ("sign-response", "sign-assertion", "sign-both", "sign-request"):
         for pos in POSITIONS:
-            for mode in NORESULT_MODES + DAMAGE_MODES:
+            for mode in NORESULT_MODES + UNPROCESSED_MODES + DAMAGE_MODES:
                 cases.append({"id": "%s-%s-%s" % (site, pos, mode), "sig": [site, "-", pos, mode], "site": site, "pos": pos, "mode": mode, "kind": "sign", "msg": "-"})
         for u in UNSTARTABLE:
             cases.append({"id": "%s-%s" % (site, u), "sig": [site, "-", "all", u], "site": site, "pos": "all", "mode": u, "kind": "sign", "msg": "-"})
     for site in ("encrypt-assertion", "encrypt-signed-assertion", "encrypt-assertion:peer-lists-same-certificate-twice", "encrypt-assertion:peer-has-two-roles-with-one-certificate",
                  "encrypt-assertion:peer-lists-two-certificates"):
         for pos in ("1", "all") + (("2",) if ":" in site else ()):
-            for mode in NORESULT_MODES + DAMAGE_MODES:
+            for mode in NORESULT_MODES + UNPROCESSED_MODES + DAMAGE_MODES:
                 cases.append({"id": "%s-%s-%s" % (site, pos, mode), "sig": [site, "-", pos, mode], "site": site, "pos": pos, "mode": mode, "kind": "encrypt", "msg": "-"})
         for u in UNSTARTABLE:
             cases.append({"id": "%s-%s" % (site, u), "sig": [site, "-", "all", u], "site": site, "pos": "all", "mode": u, "kind": "encrypt", "msg": "-"})
+    # a single attribute that travels encrypted (saml:EncryptedAttribute), alone or with a peer EncryptedKey for another recipient beside it
+    for site in ("decrypt-encrypted-attribute", "decrypt-encrypted-attribute-with-peer-key"):
+        for pos in ("1", "all"):
+            for mode in NORESULT_MODES + DAMAGE_MODES:
+                cases.append({"id": "%s-%s-%s" % (site, pos, mode), "sig": [site, "-", pos, mode], "site": site, "pos": pos, "mode": mode, "kind": "decrypt", "msg": "-"})
     for site in ("decrypt-one-key", "decrypt-second-key-right"):
         for pos in POSITIONS:
             for mode in NORESULT_MODES + DAMAGE_MODES:
@@ -394,7 +401,7 @@ def run_case(case, ctx):
             want = {"sign-response": [(xk.SAMLP, "Response")], "sign-assertion": [(xk.SAML, "Assertion")],
                     "sign-both": [(xk.SAMLP, "Response"), (xk.SAML, "Assertion")], "sign-request": [(xk.SAMLP, "AuthnRequest")]}[site]
             problems = _signature_problems(out, want, fed.key(0)[1] if site != "sign-request" else fed.key(1)[1])
-            if problems and (case["mode"] in NORESULT_MODES or unstart) and injected:
+            if problems and (case["mode"] in NORESULT_MODES + UNPROCESSED_MODES or unstart) and injected:
                 viol.append({"key": "C20/unsigned-message-returned-after-signing-fault", "what": desc + ": returned a message with " + "; ".join(problems)})
             elif problems:
                 outcome = "returned-damaged"
@@ -439,7 +446,7 @@ def run_case(case, ctx):
             if leaks or plain_assertions:
                 viol.append({"key": "C20/plaintext-assertion-returned-after-encryption-fault",
                              "what": desc + ": response returned with %d plain assertions, markers in clear %r" % (len(plain_assertions), leaks)})
-            elif (not cv or empty_cv) and (case["mode"] in NORESULT_MODES or unstart):
+            elif (not cv or empty_cv) and (case["mode"] in NORESULT_MODES + UNPROCESSED_MODES or unstart):
                 viol.append({"key": "C20/unencrypted-message-returned-after-encryption-fault",
                              "what": desc + ": response returned without cipher text (%d CipherValue, %d empty)" % (len(cv), len(empty_cv))})
         return {"outcome": outcome, "nontrivial": injected > 0, "violations": viol, "counters": {"faults_injected": injected, "returned": int(out is not None)},
@@ -483,6 +490,19 @@ def run_case(case, ctx):
                 if case["msg"] == "tampered":
                     plain = _tamper(plain)
                 xml = xk.encrypt_assertions(plain, fed.key(2)[1])
+        elif site.startswith("decrypt-encrypted-attribute"):
+            import re as _re
+            d0 = xk.Doc(fed.issue(good_idp, ident, sign_response=False, sign_assertion=False))
+            att = d0.find(xk.SAML, "Attribute")[0]
+            pfx = d0.prefix(att)
+            ed = xk.encrypt_fragment(d0.standalone(att), fed.key(2)[1]).decode("utf-8")
+            peer = ""
+            if site.endswith("with-peer-key"):
+                other = xk.encrypt_fragment(d0.standalone(att), fed.key(9)[1]).decode("utf-8")
+                m_ = _re.search(r"<xenc:EncryptedKey>.*?</xenc:EncryptedKey>", other, _re.S)
+                peer = m_.group(0).replace("<xenc:EncryptedKey>", '<xenc:EncryptedKey xmlns:xenc="%s" xmlns:ds="%s" Recipient="https://other-sp.example.net/md">' % (xk.XENC, xk.DS), 1)
+            d1 = d0.replace(att, "<%s:EncryptedAttribute>%s%s</%s:EncryptedAttribute>" % (pfx, ed, peer, pfx))
+            xml = xk.sign_element(d1.text(), xk.SAMLP, "Response", d1.root.attrs["ID"], fed.key(0)[0], "rsa-sha256", fed.cert_body(0))
         else:
             xml = fed.issue(good_idp, ident, sign_response=True, sign_assertion=False, encrypt_assertion=True)
         with Fault(ctx, case):
@@ -517,8 +537,11 @@ def run_case(case, ctx):
                     fed.identity_of(resp).get("ava"), [monitors.slim(e) for e in evs][:6])})
             elif not oks:
                 viol.append({"key": "C20/decrypted-assertion-accepted-without-genuine-verification", "what": desc + ": events %r" % [monitors.slim(e) for e in evs][:6]})
-        return {"outcome": outcome, "nontrivial": injected > 0, "violations": viol,
-                "counters": {"faults_injected": injected, "identity_yielded": int(has_identity), "genuine_decrypts": len(genuine_dec)},
+        never_reached = not [e for e in evs if e.get("cmd") == "decrypt"] and resp is None and site.startswith("decrypt-encrypted-attribute")
+        return {"outcome": outcome, "nontrivial": injected > 0 or never_reached, "violations": viol,
+                "counters": {"faults_injected": injected, "identity_yielded": int(has_identity), "genuine_decrypts": len(genuine_dec),
+                             # (the library refuses this element before it ever starts the tool: nothing a tool fault could turn into acceptance)
+                             "refused_before_any_tool_run": int(never_reached)},
                 "obs": {"events": [monitors.slim(e) for e in evs][:6]}}
 
 
@@ -554,11 +577,13 @@ def finalize(cases, results, tier, extras):
     by_site = {}
     for r in results:
         s = str(r["id"]).split("-")[0] + "-" + str(r["id"]).split("-")[1]
-        by_site.setdefault(s, [0, 0])
+        by_site.setdefault(s, [0, 0, 0])
         by_site[s][0] += 1
         by_site[s][1] += int(bool(r.get("counters", {}).get("faults_injected")))
-    for s, (n, k) in sorted(by_site.items()):
-        if k == 0:
+        by_site[s][2] += int(bool(r.get("counters", {}).get("refused_before_any_tool_run")))
+    for s, (n, k, nr) in sorted(by_site.items()):
+        if k == 0 and nr != n:
             inc.append("no fault was ever injected at site %s" % s)
     return {"inconclusive": inc, "coverage": {"plans_without_injection": len(notinj), "injections_by_site": {k: v[1] for k, v in by_site.items()},
+                                              "sites_refused_before_any_tool_run": sorted(k for k, v in by_site.items() if v[2] == v[0]),
                                               "fault_modes": VERIFY_MODES + ["empty_output"] + UNSTARTABLE}}
